@@ -358,3 +358,255 @@ def undeclare_model(P, R):
                 f'{len(managers)} managers): removed set, compaction in level order, '
                 'nodes moved with their variables, tables inverse, '
                 'computed table reset, refusals leave no trace')
+
+
+def counters_model(P, R, cls='dd.bdd.BDD'):
+    """`incref(u)` / `decref(u)` over counts 0..3 and signed references:
+    incref adds exactly one to the count of abs(u); decref subtracts one
+    when the count is positive and changes nothing otherwise (C06: counts
+    never go negative); no other count moves; neither raises."""
+    for kind in ('incref', 'decref'):
+        f = P.func(f'{cls}.{kind}')
+        prm = [p for p in f.params if p != 'self']
+        if len(prm) != 1:
+            raise AnalysisError(f'{f.qualname}: expected one parameter')
+        bad = None
+        n = 0
+        for c in (0, 1, 2, 3):
+            for u in (2, -2, 1, -1):
+                n += 1
+                ref = {1: 5, 2: 7, 3: 2}
+                ref[abs(u)] = c
+                env = {'self._ref': dict(ref), prm[0]: u}
+                try:
+                    out, m = interp.run_function(f.node, env, {})
+                except interp.Unknown as e:
+                    R.undecided('R-PAIR', f.qualname, f'{kind} model',
+                                str(e))
+                    bad = False
+                    break
+                want = dict(ref)
+                if kind == 'incref':
+                    want[abs(u)] = c + 1
+                elif c > 0:
+                    want[abs(u)] = c - 1
+                got = m.env.get('self._ref')
+                if out[0] == 'raise':
+                    bad = (f'{kind}({u}) with count {c} raises '
+                           f'{out[1]}')
+                elif got != want:
+                    bad = (f'{kind}({u}) with counts {ref} leaves {got}; '
+                           f'expected {want}')
+                if bad:
+                    break
+            if bad is not None:
+                break
+        if bad:
+            R.violation('R-PAIR', 'counter', f.qualname, kind, bad,
+                        unit=f.unit.rel, line=f.lineno)
+        elif bad is None:
+            R.holds('R-PAIR', f.qualname,
+                    f'{kind} model ({n} states): ' + (
+                        'adds exactly one to abs(u)' if kind == 'incref'
+                        else 'subtracts one only from a positive count'))
+
+
+def _collect_spec(m, call, args, kw):
+    """What collect_garbage is specified to do, on the model tables:
+    nodes other than the terminal whose count is zero go, each releasing
+    its two successors, until none is left."""
+    succ = m.env['self._succ']
+    ref = m.env['self._ref']
+    pred = m.env.get('self._pred', {})
+    while True:
+        dead = [u for u in succ if u != 1 and ref[u] == 0]
+        if not dead:
+            break
+        u = dead[0]
+        i, v, w = succ.pop(u)
+        pred.pop((i, v, w), None)
+        ref.pop(u)
+        for x in (v, w):
+            if ref[abs(x)] > 0:
+                ref[abs(x)] -= 1
+    m.env['self._ite_table'] = dict()
+    return None
+
+
+def shutdown_model(P, R):
+    """`BDD.__del__` over small managers: it raises exactly when a node
+    (or the terminal) is still referenced from outside after the
+    manager's own reference to the terminal is given back and garbage is
+    collected."""
+    f = P.func('dd.bdd.BDD.__del__')
+    stubs = method_stubs(P, 'dd.bdd.BDD', ['decref', 'incref'], extra={
+        'collect_garbage': _collect_spec,
+        'stack': lambda m, c, a, k: '<stack>',
+        'pformat': lambda m, c, a, k: '<text>'})
+    vars_ = {'a': 0, 'b': 1}
+    shapes = [
+        {},
+        {2: (1, -1, 1)},
+        {2: (1, -1, 1), 3: (0, 2, -2)},
+    ]
+    bad = None
+    n = 0
+    for nodes in shapes:
+        for ext_node in ([None] + sorted(nodes)):
+            for ext_terminal in (0, 1):
+                for own in (1, 0):
+                    n += 1
+                    env = _manager_state(vars_, nodes)
+                    ref = env['self._ref']
+                    ref[1] += own - 1 + ext_terminal
+                    if ext_node is not None:
+                        ref[ext_node] += 1
+                    if own == 0 and (nodes or ext_terminal):
+                        # (the manager's own reference is gone only
+                        # after an earlier shutdown of an empty manager)
+                        continue
+                    start = dict(ref)
+                    try:
+                        out, m = interp.run_function(f.node, env, stubs)
+                    except interp.Unknown as e:
+                        R.undecided('R-PAIR', f.qualname,
+                                    'shutdown model', str(e))
+                        return
+                    leak = ext_node is not None or ext_terminal > 0
+                    raised = out[0] == 'raise'
+                    if raised and not leak:
+                        bad = (f'nodes {nodes}, counts {start}, no '
+                               'reference from outside: the shutdown '
+                               f'check raises {out[1]}')
+                    if leak and not raised:
+                        bad = (f'nodes {nodes}, counts {start} (one '
+                               'reference from outside is left): the '
+                               'shutdown check is silent')
+                    if bad:
+                        break
+                if bad:
+                    break
+            if bad:
+                break
+        if bad:
+            break
+    if bad:
+        R.violation('R-PAIR', 'shutdown', f.qualname, 'order', bad,
+                    unit=f.unit.rel, line=f.lineno)
+    else:
+        R.holds('R-PAIR', f.qualname,
+                f'shutdown model ({n} states): raises exactly when a '
+                'reference from outside is left after the terminal\'s '
+                'own count is given back and garbage is collected')
+
+
+def handle_model(P, R):
+    """`dd.autoref.Function.__init__` and `__del__` on a model manager
+    that records incref / decref: the constructor takes exactly one
+    reference to the node it wraps and none when it refuses the node;
+    the finaliser gives exactly that reference back, once (a second
+    invocation gives nothing back)."""
+    init = P.func('dd.autoref.Function.__init__')
+    dele = P.func('dd.autoref.Function.__del__')
+    known = frozenset({1, -1, 2, -2})
+
+    def recorder(log, name):
+        def stub(m, call, args, kw):
+            if len(args) != 1 or not isinstance(args[0], int) or \
+                    isinstance(args[0], bool):
+                log.append((name, args))
+                raise interp.Raised('TypeError', call)
+            if args[0] not in known:
+                raise interp.Raised('KeyError', call)
+            log.append((name, abs(args[0])))
+            return None
+        return stub
+    prm = [p for p in init.params if p != 'self']
+    if len(prm) != 2:
+        raise AnalysisError('Function.__init__: expected (node, bdd)')
+    bad = None
+    n = 0
+    for node in (2, -2, 1, 5, -5):
+        n += 1
+        log = []
+        stubs = {'incref': recorder(log, 'incref'),
+                 'decref': recorder(log, 'decref')}
+        env = {prm[0]: node, prm[1]: interp.Sym('bdd'),
+               f'{prm[1]}._bdd': known}
+        try:
+            out, m = interp.run_function(init.node, env, stubs)
+        except interp.Unknown as e:
+            R.undecided('R-PAIR', init.qualname, 'constructor model',
+                        str(e))
+            bad = False
+            break
+        if node in known:
+            if out[0] == 'raise':
+                bad = (f'Function({node}, bdd) for a node of the manager '
+                       f'raises {out[1]} after {log}')
+            elif log != [('incref', abs(node))]:
+                bad = (f'Function({node}, bdd) changes the counts by '
+                       f'{log}: it must take exactly one reference to '
+                       f'node {abs(node)}')
+            elif m.env.get('self.node') != node:
+                bad = (f'Function({node}, bdd) takes the reference but '
+                       f'stores node {m.env.get("self.node")}: the '
+                       'finaliser cannot give it back')
+        else:
+            if out[0] != 'raise':
+                bad = (f'Function({node}, bdd) accepts a node that the '
+                       'manager does not have')
+            elif log:
+                bad = (f'Function({node}, bdd) raises after {log}: the '
+                       'count is never given back (no Function object '
+                       'exists)')
+        if bad:
+            break
+    if bad:
+        R.violation('R-PAIR', 'handle-acquire', init.qualname, 'incref',
+                    bad, unit=init.unit.rel, line=init.lineno)
+    elif bad is None:
+        R.holds('R-PAIR', init.qualname,
+                f'constructor model ({n} nodes): exactly one incref of '
+                'the wrapped node, none when the node is refused')
+    bad = None
+    n = 0
+    for node in (2, -2, 1, None):
+        n += 1
+        log = []
+        stubs = {'incref': recorder(log, 'incref'),
+                 'decref': recorder(log, 'decref')}
+        env = {'self.node': node, 'self.manager': known,
+               'self.bdd': interp.Sym('bdd'), 'self.bdd._bdd': known}
+        try:
+            out, m = interp.run_function(dele.node, env, stubs)
+            first = list(log)
+            out2, m2 = interp.run_function(dele.node, m.env, stubs)
+        except interp.Unknown as e:
+            R.undecided('R-PAIR', dele.qualname, 'finaliser model',
+                        str(e))
+            bad = False
+            break
+        want = [] if node is None else [('decref', abs(node))]
+        if out[0] == 'raise' or out2[0] == 'raise':
+            bad = (f'the finaliser of a handle on node {node} raises '
+                   f'{out[1] or out2[1]} (counts changed: {log})')
+        elif first != want:
+            bad = (f'the finaliser of a handle on node {node} changes the '
+                   f'counts by {first}; it must give back ' + (
+                       'nothing (already released)' if node is None
+                       else f'exactly the one reference to {abs(node)}'))
+        elif log != want:
+            bad = (f'a second invocation of the finaliser of a handle on '
+                   f'node {node} changes the counts again ({log[len(first):]}'
+                   '): the reference is given back twice')
+        if bad:
+            break
+    if bad:
+        R.violation('R-PAIR', 'handle-release', dele.qualname, 'decref',
+                    'Function.__del__: ' + bad, unit=dele.unit.rel,
+                    line=dele.lineno)
+    elif bad is None:
+        R.holds('R-PAIR', dele.qualname,
+                f'finaliser model ({n} handles, each finalised twice): '
+                'gives back exactly one reference, once')
